@@ -207,6 +207,30 @@ class VPerson(Symbol):
 
 
 @dataclass(eq=False)
+class Row(Symbol):
+    """a user class may have a field with the name the expression nodes use for their identifier"""
+    name: str
+    _id_: int = 7
+
+    def __repr__(self):
+        return f"Row({self.name})"
+
+
+@dataclass(eq=False)
+class Lenient(Symbol):
+    """a record whose unknown attributes read as None"""
+    name: str
+
+    def __getattr__(self, attribute_name):
+        if attribute_name.startswith("__"):
+            raise AttributeError(attribute_name)
+        return None
+
+    def __repr__(self):
+        return f"Lenient({self.__dict__.get('name')})"
+
+
+@dataclass(eq=False)
 class Stamp(Predicate):
     """an instance of a predicate is a Symbol that the graph does not register when it is created: it gets its node
     when a relation needs one"""
@@ -342,4 +366,4 @@ PERSON_CLASSES = {"Person": Person, "Employee": Employee, "Manager": Manager, "V
 ORG_CLASSES = {"Org": Org, "Dept": Dept}
 ODD_CLASSES = {"Bag": Bag, "Crate": Crate}
 ALL_CLASSES = {**PERSON_CLASSES, **ORG_CLASSES, "SeasonalA": SeasonalA, "SeasonalB": SeasonalB, "Loose": Loose, "Chief": Chief, "ChiefF": ChiefF, "VOrg": VOrg, "VPerson": VPerson, "Unit": Unit,
-               "Visitor": Visitor, "Delegate": Delegate, "Chair": Chair, "Convener": Convener, "Boss": Boss, "Folder": Folder, "Stamp": Stamp}
+               "Visitor": Visitor, "Delegate": Delegate, "Chair": Chair, "Convener": Convener, "Boss": Boss, "Folder": Folder, "Stamp": Stamp, "Row": Row, "Lenient": Lenient}
